@@ -460,35 +460,47 @@ unsafe fn do_spawn<F: PreExec>(
     if child_pid == 0 {
         // Executing as child process
         drop(read_pipe);
-        if let Some(fd) = theirs.stdin.fd() {
-            rusl::unistd::dup2(fd, STDIN)?;
-        }
-        if let Some(fd) = theirs.stdout.fd() {
-            rusl::unistd::dup2(fd, STDOUT)?;
-        }
-        if let Some(fd) = theirs.stderr.fd() {
-            rusl::unistd::dup2(fd, STDERR)?;
-        }
-        if let Some(cwd) = cwd {
-            rusl::unistd::chdir(cwd)?;
-        }
-        if let Some(uid) = uid {
-            rusl::unistd::setuid(uid)?;
-        }
-        if let Some(gid) = gid {
-            rusl::unistd::setgid(gid)?;
-        }
-        if let Some(pgroup) = pgroup {
-            rusl::unistd::setpgid(0, pgroup)?;
-        }
-        for closure in closures {
-            closure.run()?;
-        }
-        let Err(e) = rusl::process::execve(bin, argv, envp) else {
-            // execve only returns on error.
-            unreachable_unchecked();
+        // A failure in here must never return to the caller's code in this (the child) process,
+        // it's reported to the parent through the pipe, like a failed exec
+        let setup = (|| -> Result<()> {
+            if let Some(fd) = theirs.stdin.fd() {
+                rusl::unistd::dup2(fd, STDIN)?;
+            }
+            if let Some(fd) = theirs.stdout.fd() {
+                rusl::unistd::dup2(fd, STDOUT)?;
+            }
+            if let Some(fd) = theirs.stderr.fd() {
+                rusl::unistd::dup2(fd, STDERR)?;
+            }
+            if let Some(cwd) = cwd {
+                rusl::unistd::chdir(cwd)?;
+            }
+            if let Some(uid) = uid {
+                rusl::unistd::setuid(uid)?;
+            }
+            if let Some(gid) = gid {
+                rusl::unistd::setgid(gid)?;
+            }
+            if let Some(pgroup) = pgroup {
+                rusl::unistd::setpgid(0, pgroup)?;
+            }
+            for closure in closures {
+                closure.run()?;
+            }
+            Ok(())
+        })();
+        let err_code = match setup {
+            Ok(()) => {
+                let Err(e) = rusl::process::execve(bin, argv, envp) else {
+                    // execve only returns on error.
+                    unreachable_unchecked();
+                };
+                e.code
+            }
+            Err(Error::Os { code, .. }) => Some(code),
+            Err(_) => None,
         };
-        let code: [u8; 4] = if let Some(code) = e.code {
+        let code: [u8; 4] = if let Some(code) = err_code {
             code.raw().to_be_bytes()
         } else {
             rusl::process::exit(1)
